@@ -104,6 +104,7 @@ macro_rules! registry {
         #[kani::unwind($unwind)]
         #[kani::stub(alloc::fmt::format, crate::stubs::stub_format)]
         #[kani::stub(core::ptr::align_offset, crate::stubs::no_align_offset)]
+        #[kani::stub(str::to_uppercase, crate::stubs::ascii_upper)]
         #[kani::stub(core::arch::x86_64::__cpuid_count, crate::stubs::fake_cpuid)]
         #[kani::stub(tracing_core::callsite::DefaultCallsite::interest, crate::stubs::stub_interest)]
         #[kani::stub(tracing::__macro_support::__is_enabled, crate::stubs::stub_is_enabled)]
@@ -117,6 +118,7 @@ macro_rules! registry {
         #[kani::unwind($unwind)]
         #[kani::stub(alloc::fmt::format, crate::stubs::stub_format)]
         #[kani::stub(core::ptr::align_offset, crate::stubs::no_align_offset)]
+        #[kani::stub(str::to_uppercase, crate::stubs::ascii_upper)]
         #[kani::stub(core::arch::x86_64::__cpuid_count, crate::stubs::fake_cpuid)]
         #[kani::stub(tracing_core::callsite::DefaultCallsite::interest, crate::stubs::stub_interest)]
         #[kani::stub(tracing::__macro_support::__is_enabled, crate::stubs::stub_is_enabled)]
@@ -132,6 +134,7 @@ macro_rules! registry {
         #[kani::unwind($unwind)]
         #[kani::stub(alloc::fmt::format, crate::stubs::stub_format)]
         #[kani::stub(core::ptr::align_offset, crate::stubs::no_align_offset)]
+        #[kani::stub(str::to_uppercase, crate::stubs::ascii_upper)]
         #[kani::stub(core::arch::x86_64::__cpuid_count, crate::stubs::fake_cpuid)]
         #[kani::stub(tracing_core::callsite::DefaultCallsite::interest, crate::stubs::stub_interest)]
         #[kani::stub(tracing::__macro_support::__is_enabled, crate::stubs::stub_is_enabled)]
@@ -146,6 +149,7 @@ macro_rules! registry {
         #[kani::unwind($unwind)]
         #[kani::stub(alloc::fmt::format, crate::stubs::stub_format)]
         #[kani::stub(core::ptr::align_offset, crate::stubs::no_align_offset)]
+        #[kani::stub(str::to_uppercase, crate::stubs::ascii_upper)]
         #[kani::stub(core::arch::x86_64::__cpuid_count, crate::stubs::fake_cpuid)]
         #[kani::stub(tracing_core::callsite::DefaultCallsite::interest, crate::stubs::stub_interest)]
         #[kani::stub(tracing::__macro_support::__is_enabled, crate::stubs::stub_is_enabled)]
